@@ -204,6 +204,18 @@ PROPERTIES = {
         not_decided=['all liveness clauses of the statement: bounded only', 'Pipeline.process / _process_one_worker / _shutdown_processing bodies (asyncio.wait over task sets, '
                      'task.result()): bounded only'],
     ),
+    'C14': dict(
+        modules=['table'], level='exploration', bounded=['c14_table.py'],
+        claim='NOTHING about the table itself is proved: its behaviour is SQL executed by SQLite through SQLAlchemy, outside any contract\'s reach. The level is exploration: '
+              'bounded stand-in c14_table.py = run-time checked contracts (abstract view: the whole table as a dict) on every public operation of the real SQLiteURLTable, also '
+              'through URLTableHookWrapper, against a reference model, for all operation sequences of length <= 3 over 13 operations and seeded random sequences up to 40 '
+              'operations on disk with reopen; the whole view is compared after every operation. The one part within reach IS under contract and proved: '
+              'URLTableHookWrapper forwards count/get_one/get_all/add_many/check_out/check_in/release/remove_many/close/add_visits/get_revisit_id/get_hostnames/'
+              'get_root_url_todo_count/convert_check_out/convert_check_in as exactly one call of the same operation with the same arguments, returning its result.',
+        note='the contracts of the stand-in are preconditions/postconditions over an abstract view like the deductive ones, but they are CHECKED AT RUN TIME on the sequences '
+             'explored, never discharged for all histories; reopen is tested with a real file in a temporary directory that is removed afterwards',
+        not_decided=['every clause of the statement beyond the bound of the stand-in', 'update_one forwarding (*args/**kwargs)'],
+    ),
     'C15': dict(
         modules=['path'], level='proof', bounded=['c15_names.py'],
         claim='Per-byte lemma on the real PercentEncoder.__missing__ for all 256 byte values and all 16 option combinations: the separator is escaped in unix and windows mode, '
